@@ -287,7 +287,19 @@ def run(ctx: Ctx):
     early = [n for n in ast.walk(lr.node) if isinstance(n, ast.If) and any(isinstance(b, ast.Return) for b in n.body)]
     # the generator's variable is a role bound consistently in element and iteration clause
     ok = bool(early) and SL.m(f"all(self.res.solved[state] for state in {lm}.initial_state_dist().support)", early[0].test) is not None
-    ctx.check(ok if ok else None, "BEL-5", lr, early[0] if early else lr.node, "termination test: all initial states labelled solved", "", "idiom not recognised")
+    # (tightened after seed C04-c) a termination test that looks at ONE state drawn from the initial distribution is definitely too weak
+    sampled = []
+    if early and not ok:
+        for sub in ast.walk(early[0].test):
+            if isinstance(sub, ast.Subscript) and isinstance(sub.slice, ast.Name) and SL.m("self.res.solved[x]", sub) is not None:
+                dv = SL.defs.get(sub.slice.id)
+                if dv is not None and isinstance(dv, ast.Call) and isinstance(dv.func, ast.Attribute) and dv.func.attr == "sample":
+                    sampled.append(sub.slice.id)
+    if sampled:
+        ctx.violation("BEL-5", lr, early[0], "termination test: all initial states labelled solved",
+                      "planning stops as soon as ONE sampled initial state is labelled solved: with several initial states the others may be unsolved and `converged` is reported True")
+    else:
+        ctx.check(ok if ok else None, "BEL-5", lr, early[0] if early else lr.node, "termination test: all initial states labelled solved", "", "idiom not recognised")
     # ---------------- result assembly
     td = C.methods["_tear_down_plan_on"]
     SD = Snips(td)
